@@ -15,6 +15,7 @@ The engine is the one of payload_common.run_spec with the driver commands `pl3.e
 from __future__ import annotations
 
 import collections
+import contextlib
 import copy
 import importlib
 import struct
@@ -1435,6 +1436,235 @@ def unit10_specs():
 UNIT10_CLASSES = ["FilterEffects", "FilterEffect", "FilterEffectChannel", "FilterEffectExtra"]
 
 
+
+# ---------------------------------------------------------------------------------------------
+# unit 7 (continued): the typed image resource and documents with typed resources
+# ---------------------------------------------------------------------------------------------
+_RES_SPECS = None
+
+
+def res_specs():
+    """registered class name -> Spec whose `tokens` gives the model's value tokens"""
+    global _RES_SPECS
+    if _RES_SPECS is None:
+        import payload_common as pc
+        d = {}
+        for sp in unit7_specs():
+            d[sp.pyname or sp.name] = sp
+        d["Color"] = pc.ColorSpec()
+        d["StringElement"] = pc.StringSpec()
+        _RES_SPECS = d
+    return _RES_SPECS
+
+
+def res_payload_tokens(data):
+    if isinstance(data, (bytes, bytearray)):
+        return ["0", hx(bytes(data))]
+    nm = type(data).__name__
+    sp = res_specs().get(nm)
+    if sp is None or type(data) is not sp.K():
+        raise NotRep("resource payload of class %s is not in the typed model" % nm)
+    return ["1", nm, sp.tokens(data)]
+
+
+def t_tres(r, encoding="macroman"):
+    if not isinstance(r.name, str):
+        raise NotRep("resource name is not a str")
+    try:
+        name = r.name.encode(encoding)
+    except UnicodeError:
+        raise NotRep("resource name not encodable (C19)")
+    return [skel._b(r.signature), t_nat(skel.keyv(r.key)), hx(name), *res_payload_tokens(r.data)]
+
+
+def tres_excluded(r):
+    IR = _IR()
+    if r.signature not in (b"8BIM", b"MeSa", b"AgHg", b"PHUT", b"DCSR"):
+        return "signature-rejected-by-validator"
+    K = IR.TYPES.get(skel.keyv(r.key))
+    if isinstance(r.data, (bytes, bytearray)):
+        return None if K is None else "raw-bytes-under-a-registered-id"
+    if K is None or type(r.data) is not K:
+        return "payload-class-does-not-match-the-id"
+    sp = res_specs()[K.__name__]
+    return sp.excluded(r.data, 1, None)
+
+
+class TypedResourceSpec(Spec3):
+    name = "ImageResource"
+    offsets = (0, 3, 4, 5, 6, 7, 8, 11, 12, 16)
+
+    def K(self):
+        return _IR().ImageResource
+
+    def tokens(self, x):
+        return " ".join(t_tres(x))
+
+    def write_kw(self, v, pad):
+        return {"encoding": "macroman"}
+
+    def read_kw(self, v, rpad):
+        return {"encoding": "macroman"}
+
+    def excluded(self, x, pad=None, rpad=None):
+        return tres_excluded(x)
+
+    def known(self, why):
+        return SLICE16_KNOWN if why == "slice-id-16-after-a-slice-without-descriptor" else None
+
+    def too_big(self, x, quick):
+        d = getattr(x.data, "data", None)
+        return quick and isinstance(d, (bytes, bytearray)) and len(d) > 20000
+
+    def instances(self, rng, quick):
+        IR, C = _IR(), _C()
+        R = IR.ImageResource
+        by_class = collections.defaultdict(list)
+        for k, K in IR.TYPES.items():
+            by_class[K.__name__].append(skel.keyv(k))
+        out = []
+        names = ["", "a", "ab", "Résumé", "x" * 255]
+        for nm, keys in sorted(by_class.items()):
+            sp = res_specs()[nm]
+            vals = [x for o, x in sp.instances(rng, True) if o in ("generated", "boundary")]
+            rng.shuffle(vals)
+            for i, key in enumerate(keys):
+                for x in vals[: (1 if quick else 6)]:
+                    out.append(("generated", R(signature=rng.choice([b"8BIM", b"8BIM", b"MeSa", b"AgHg", b"PHUT", b"DCSR"]), key=key,
+                                               name=rng.choice(names), data=copy.deepcopy(x))))
+        for key in (1000, 1001, 2000, 2998, 4000, 4999, 65535, 0):
+            out.append(("boundary", R(key=key, name=rng.choice(names), data=bytes(rng.randrange(256) for _ in range(rng.choice([0, 1, 2, 7]))))))
+        out += [("excluded", R(key=int(C.Resource.VERSION_INFO), data=b"\x00\x00\x00\x01")),
+                ("excluded", R(key=int(C.Resource.SLICES), data=IR.Integer(30))),
+                ("excluded", R(key=4000, data=IR.Integer(30))),
+                ("breaking", R(key=65536, data=b"")), ("breaking", R(key=1000, name="y" * 256, data=b"")),
+                ("breaking", R(key=int(C.Resource.GLOBAL_ANGLE), data=IR.Integer(2 ** 31)))]
+        bad = R(key=1000, data=b"ab")
+        bad.signature = b"XXXX"
+        out.append(("excluded", bad))
+        return out
+
+
+@contextlib.contextmanager
+def typed_resources_only():
+    """parse with every image-resource payload typed and, of the tagged blocks, only LayerInfoBlock typed (the typed
+    document of the model: Model/Payload3Typed.lean on top of Model/PayloadLayerInfo.lean)"""
+    import payload_common as pc
+    TB = pc._TB()
+    saved = dict(TB.TYPES)
+    keep = {k: v for k, v in saved.items() if getattr(v, "__name__", "") == "LayerInfoBlock"}
+    TB.TYPES.clear()
+    TB.TYPES.update(keep)
+    try:
+        yield
+    finally:
+        TB.TYPES.clear()
+        TB.TYPES.update(saved)
+
+
+def t_res_psd(p, encoding):
+    import payload_common as pc
+    v = p.header.version
+    lam = p.layer_and_mask_information
+    items = []
+    for k in p.image_resources:
+        r = p.image_resources[k]
+        if skel.keyv(k) != skel.keyv(r.key):
+            raise skel.NotSkeleton("dict key differs from resource key")
+        items.append(r)
+    return [*skel.t_header(p.header), skel._b(p.color_mode_data.value), *t_list(items, lambda r: t_tres(r, encoding)),
+            *skel._opt(lam.layer_info, lambda li: skel.t_layerinfo(li, encoding, v)),
+            *skel._opt(lam.global_layer_mask_info, skel.t_glm),
+            *skel._opt(lam.tagged_blocks, lambda tbs: skel._list(skel.tagged_items(tbs), lambda t: pc.t_tblock(t, v, 4))),
+            *skel.t_image(p.image_data)]
+
+
+def typed_documents(ctx, fail_cls):
+    """whole documents with typed resources: the fixtures (quick: a seeded sample of the small ones), re-written with
+    layer-info padding 4 (thorough: 1, 2, 4): PSD.write vs model enc, PSD.read vs model read, the Python oracle"""
+    import codec_common as cc
+    rng, quick = ctx.rng, ctx.quick
+    files = [f for f in cc.fixtures() if (not quick or f.stat().st_size <= 30000)]
+    if quick:
+        files = rng.sample(files, min(10, len(files)))
+    live, reqs = [], []
+    for f in files:
+        b = f.read_bytes()
+        with typed_resources_only():
+            r = cc.read_doc(b)
+        if r[0] != "ok":
+            continue
+        for pad in ((4,) if quick else (1, 2, 4)):
+            doc = copy.deepcopy(r[1])
+            try:
+                before = skel.tokens(t_res_psd(doc, "macroman"))
+            except (NotRep, skel.NotSkeleton) as e:
+                ctx.hist("payload_not_representable", "typed document: " + str(e)[:70])
+                break
+            except Exception as e:  # noqa
+                ctx.hist("payload_not_representable", "typed document: payload write failed: " + type(e).__name__)
+                break
+            w = cc.write_doc(doc, "macroman", pad)
+            try:
+                after = skel.tokens(t_res_psd(doc, "macroman")) if w[0] == "ok" else None
+            except Exception:  # noqa
+                after = None
+            live.append((f.name, doc, pad, before, w, after))
+            reqs.append(("pl3.enc", "ResPSD", 0, pad, before))
+    dreq, dlive = [], []
+    for c, a in zip(live, cc.pbatch(reqs)):
+        name, doc, pad, before, w, after = c
+        ctx.corr_cases += 1
+        ctx.count(("pl3-doc-enc", pad, before[:4000]), nontrivial=True)
+        ctx.hist("payload_class_x_origin", "PSD[typed resources]/fixture")
+        if w[0] == "ok":
+            if a[0] != "ok" or a[1] != hx(w[1]) or int(a[2]) != w[2]:
+                ctx.disagree("typed document: PSD.write bytes / count != model enc", {"file": name, "pad": pad, "model": a[:1]})
+            elif a[4] != after:
+                ctx.disagree("typed document: object state after write != model refresh", {"file": name})
+            iswf = a[0] == "ok" and a[3] == "1"
+            dreq.append(("pl3.dec", "ResPSD", 0, pad, hx(w[1]), 0))
+            dlive.append(c + (iswf,))
+        else:
+            ctx.hist("payload_writer_rejects", f"PSD[typed resources]:{w[1]}")
+            if a[0] != "err" or a[1] != w[1]:
+                ctx.disagree("typed document: exception class of PSD.write != model", {"py": w[1], "model": a[:2], "file": name})
+    for c, a in zip(dlive, cc.pbatch(dreq)):
+        name, doc, pad, before, w, after, iswf = c
+        ctx.corr_cases += 1
+        with typed_resources_only():
+            r = cc.read_doc(w[1], "macroman")
+        ok, obs = False, None
+        if r[0] == "ok":
+            try:
+                rt = skel.tokens(t_res_psd(r[1], "macroman"))
+            except (NotRep, skel.NotSkeleton) as e:
+                ctx.disagree("typed document: re-read document is not representable", {"why": str(e), "file": name})
+                continue
+            if a[0] != "ok" or a[1] != rt or int(a[2]) != r[2]:
+                ctx.disagree("typed document: PSD.read structure / cursor != model read", {"file": name, "model": a[:1]})
+            w2 = cc.write_doc(r[1], "macroman", pad)
+            same = rt == after
+            ok = same and w2[0] == "ok" and w2[1] == w[1]
+            obs = {"reread_equal": same, "rewrite_identical": w2[0] == "ok" and w2[1] == w[1]}
+        else:
+            if a[0] != "err" or a[1] != r[1]:
+                ctx.disagree("typed document: exception class of PSD.read != model read", {"py": r[1], "model": a[:2], "file": name})
+            obs = {"read": r[1]}
+        ctx.count(("pl3-doc-oracle", pad, before[:4000]), nontrivial=True)
+        if ok:
+            ctx.hist("payload_oracle", "PSD[typed resources]: round-trips" if iswf else "PSD[typed resources]: not-WF-but-round-trips")
+        elif iswf:
+            fail_cls["ImageResource"] += 1
+            ctx.fail("C01/payload/typed-resources-document/not-round-trip",
+                     f"a document with typed image resources does not survive write -> read ({name})",
+                     {"file_name": name, "encoding": "macroman", "padding": pad, "file": hx(w[1])}, obs,
+                     "PSD.read(PSD.write(d)) == d (token form, as the writer left it) and identical re-write")
+        else:
+            ctx.hist("payload_oracle", "PSD[typed resources]: excluded-by-WF")
+    ctx.extra["payload3_typed_documents"] = len(live)
+
+
 def dat_instances():
     """instances parsed from the payload files of the repo's own tests (tests/image_resources, tests/tagged_blocks)"""
     out = collections.defaultdict(list)
@@ -1452,7 +1682,7 @@ def dat_instances():
 # ---------------------------------------------------------------------------------------------
 # the check
 # ---------------------------------------------------------------------------------------------
-MODEL_CLASSES = list(UNIT7_CLASSES) + UNIT8_CLASSES + UNIT9_CLASSES + UNIT10_CLASSES
+MODEL_CLASSES = list(UNIT7_CLASSES) + ["ImageResource"] + UNIT8_CLASSES + UNIT9_CLASSES + UNIT10_CLASSES
 
 
 def run_units3(ctx, specs, sink, seen_cls, fail_cls, excluded_log, label):
@@ -1511,6 +1741,8 @@ def _run(ctx):
         sink.setdefault(K, []).extend(xs)
     run_units3(ctx, unit7_specs(), sink, seen_cls, fail_cls, excluded_log, "unit7")
     unit7_witnesses(ctx)
+    run_units3(ctx, [TypedResourceSpec()], sink, seen_cls, fail_cls, excluded_log, "typed_resource")
+    typed_documents(ctx, fail_cls)
     run_units3(ctx, unit8_specs(), sink, seen_cls, fail_cls, excluded_log, "unit8")
     seen_cls["CurvesExtraMarker"] += seen_cls.get("Curves", 0)
     seen_cls["CurvesExtraItem"] += seen_cls.get("Curves", 0)
@@ -1548,6 +1780,14 @@ def _run(ctx):
         "_rewrite_identical, _written_is_length, tagged_block_<class> / image_resource_<class>; ties <unit>_registry_tied (every registered class is "
         "modelled), _calls_tied, _conditions_tied (if / while tests, asserts, caught exception classes, bases), _formats_tied (parseFmt of the "
         "source's format strings = the model's formats), unit7_enums_tied, unit8_validators_tied, unit9_selectors_tied, unit9_fixed_point_tied.",
+        "The typed image resource (Model/Payload3Typed.lean): ImageResource.read with the payload dispatch TYPES[key].frombytes(raw_data) and "
+        "ImageResource.write with data.write(f, padding=1) are modelled (class decided by the resource id through the regenerated registry: "
+        "key_class_tied); typed_image_resource_roundtrip / _written_is_length, typed_resource_is_skeleton_resource, "
+        "typed_image_resources_roundtrip (the section), psd_roundtrip_resources / psd_rewrite_identical_resources (a whole document whose image "
+        "resources are objects of their classes and whose document-level tagged blocks are typed as in psd_roundtrip_deep), "
+        "resources_refine_deep. Correspondence: typed resources generated for every registered id x class instance and harvested from the "
+        "fixtures; whole fixture documents parsed with typed resources (quick: a seeded sample of 10 below 30 kB, padding 4; thorough: all, "
+        "padding 1/2/4) through PSD.write / PSD.read vs the model.",
         "Finding of unit 7, repaired (repo commit 588bcfb): the proof of slices_v6_roundtrip_at_end forced 'a slice without descriptor is not "
         "followed by a slice whose id is 16' (SlicesV6.chainOK). On the real code SlicesV6(items=[SliceV6(slice_id=1), SliceV6(slice_id=16, "
         "group_id=1000), SliceV6(slice_id=3)]) was written and then failed to load: SliceV6.read undid its speculative DescriptorBlock.read on "
